@@ -287,7 +287,7 @@ class Exec:
                 # lock or index file of that name): a statistic, not a verdict
                 self.stray_touched += 1
         nums = [n for n, _, _ in blk]
-        if nums != list(range(len(nums))):
+        if nums and nums != list(range(nums[0], nums[0] + len(nums))):
             self.viols.append(Violation("numbering", f"batch={b}", f"{what}; file numbers {nums}"))
             ok = False
         for n, name, data in blk:
